@@ -63,6 +63,10 @@ func Cleanup() {
 
 // Quiet is the logger handed to the code under test.
 func Quiet() *zerolog.Logger {
+	if os.Getenv("VERIF_LOG") != "" {
+		l := zerolog.New(zerolog.ConsoleWriter{Out: os.Stderr, NoColor: true}).Level(zerolog.TraceLevel)
+		return &l
+	}
 	l := zerolog.New(io.Discard).Level(zerolog.Disabled)
 	return &l
 }
